@@ -318,6 +318,8 @@ func FromLiteral(l interface{}) (Literal, error) {
 		return Literal{AnyLiteral: RouteExpression(l)}, nil
 	case UntypedCollection:
 		return Literal{AnyLiteral: CollectionExpression{UntypedCollection: l}}, nil
+	case Query:
+		return Literal{AnyLiteral: QueryExpression{Query: l}}, nil
 	}
 	return Literal{}, fmt.Errorf("can't make literal from %T", l)
 }
